@@ -94,7 +94,34 @@ def build_groups(rng, tier):
                     flat = special_data(rng, flat)
                     qx = [rng.choice(xs) if rng.random() < 0.6 else q for q in qx]
                     qy = [rng.choice(ys) if rng.random() < 0.6 else q for q in qy]
-            mk = lambda e, dt=dtag: i2_line(S, xs, ys, shape, flat, False, e, dtag=dt)
+            # just outside / far outside coordinates: with extrapolation every entry point continues the border cell identically,
+            # without it every entry point rejects the same element (x before y)
+            ext2 = rng.random() < 0.3
+            def outside(ax):
+                span = ax[-1] - ax[0]
+                if S == "F":
+                    v = rng.choice([vlib.next_up(ax[-1]), vlib.next_down(ax[0]), ax[-1] + span * 1e-13, ax[0] - span * 1e-13,
+                                    ax[-1] + span, ax[0] - span / 3])
+                    return v if (v > ax[-1] or v < ax[0]) else vlib.next_up(ax[-1])
+                return rng.choice([ax[-1] + Fr(1, 10 ** 14), ax[0] - Fr(1, 10 ** 14), ax[-1] + span, ax[0] - span / 3])
+            if ext2 and nq >= 1:
+                for k_ in range(nq):
+                    if rng.random() < 0.5:
+                        if rng.random() < 0.5:
+                            qx[k_] = outside(xs)
+                        else:
+                            qy[k_] = outside(ys)
+            elif nq >= 1 and rng.random() < 0.3:
+                pos = rng.randrange(nq) if rng.random() < 0.4 else rng.randrange(max(1, nq - 1))
+                if rng.random() < 0.5:
+                    qx[pos] = outside(xs)
+                else:
+                    qy[pos] = outside(ys)
+                bad_pos = pos
+                bad_set.add(pos)
+                if qshape == [nq] and rng.random() < 0.7:
+                    qtag = "sta" if rng.random() < 0.8 else "dyn"
+            mk = lambda e, dt=dtag: i2_line(S, xs, ys, shape, flat, ext2, e, dtag=dt)
             batch = mk(e_array(S, qshape, qx, qy, qtag=qtag, lay=rng.choice(gen.LAYS_ND)))
             into = mk(e_ainto(S, qshape, qshape + trailing, qx, qy, qtag=qtag, lay=rng.choice(gen.LAYS_ND), blay=rng.choice(gen.LAYS_ND)))
             singles = [(mk(e_single(S, a, b)), k_) for k_, (a, b) in enumerate(zip(qx, qy))][:6]
@@ -120,7 +147,8 @@ def build_groups(rng, tier):
                 # one rejected element (out of range / NaN at f64) at a random position: every entry point must agree on the rejection
                 pos = rng.randrange(nq) if rng.random() < 0.4 else rng.randrange(max(1, nq - 1))
                 span = xs[-1] - xs[0]
-                qs[pos] = rng.choice([xs[-1] + span, xs[0] - span / 3] + ([float("nan"), float("inf")] if S == "F" else []))
+                qs[pos] = rng.choice([xs[-1] + span, xs[0] - span / 3] + ([float("nan"), float("inf"), vlib.next_up(xs[-1]), vlib.next_down(xs[0]),
+                                                                             vlib.next_up(xs[-1] + span * 1e-13)] if S == "F" else [xs[-1] + Fr(1, 10 ** 14)]))
                 bad_pos = pos
                 if pos + 1 < nq and rng.random() < 0.5:
                     pos2 = rng.randrange(pos + 1, nq)
